@@ -31,7 +31,8 @@ for d in sorted(os.listdir(os.path.join(V, "seeded"))):
     if not os.path.isdir(sd):
         continue
     pid = d.split("-")[0]
-    meta = {"property": pid, "origin": "sub-agent given only the property text and a scratch worktree" if d.endswith("-a") else "reverse patch of a fix: commit"}
+    meta = {"property": pid, "origin": "sub-agent given only the property text and a scratch worktree" if d.endswith("-a") else
+            "sub-agent (round 2) given the property text, a scratch worktree and a one-paragraph description of the first seed to steer it elsewhere" if d.endswith("-b") else "reverse patch of a fix: commit"}
     notes = os.path.join(sd, "NOTES.md")
     if os.path.exists(notes):
         t = open(notes).read()
@@ -48,5 +49,6 @@ for d in sorted(os.listdir(os.path.join(V, "seeded"))):
     json.dump(meta, open(os.path.join(sd, "meta.json"), "w"), indent=1)
     r = meta.get("result", {})
     first = re.sub(r"```.*", "", meta.get("change", "")).split(". ")[0][:140]
-    rows.append("| %s | %s | %s quick: exit %s, %s | `%s` |" % (d, first.replace("|", "/"), r.get("check", pid), r.get("exit", "?"), "%d violation lines" % r.get("violation_lines", 0), "`, `".join(s[:90] for s in r.get("signatures", [])[:2])))
+    rows.append("| %s | %s | %s quick: exit %s, %s%s | `%s` |" % (d, first.replace("|", "/"), r.get("check", pid), r.get("exit", "?"), "%d violation lines" % r.get("violation_lines", 0),
+                                                              " (missed at first)" if r.get("first_attempt") else "", "`, `".join(s[:90] for s in r.get("signatures", [])[:2])))
 print("| seed | change (first sentence of the agent's notes) | result | signatures |\n|---|---|---|---|\n" + "\n".join(rows))
